@@ -312,6 +312,15 @@ func C18(r *simkit.Run) {
 				body.WriteString("-- atlas:delimiter ;;\n\n")
 				r.Probe("file-with-delimiter-directive")
 			}
+			// Or a file-level nolint directive that names one code or class: it acknowledges the
+			// diagnostics of that code in this file, and nothing else.
+			fileNolint := ""
+			if delim == ";" && t.Chance("file-level-nolint-with-a-code", 1, 6) {
+				fileNolint = []string{"DS103", "DS102", "data_depend", "BC102"}[t.Draw("file-nolint-arg", 4)]
+				body.WriteString("-- atlas:nolint " + fileNolint + "\n\n")
+				lf.desc = append(lf.desc, "file-level atlas:nolint "+fileNolint)
+				r.Probe("file-level-nolint-with-a-code")
+			}
 			headerLen := body.Len()
 			emit := func(stmts ...string) (start, end int) {
 				start = body.Len()
@@ -366,7 +375,15 @@ func C18(r *simkit.Run) {
 					nolint := t.Chance("nolint-on-drop-table", 1, 6)
 					text := fmt.Sprintf("DROP TABLE `%s`", tb.Name)
 					if nolint {
-						text = strings.TrimSpace("-- atlas:nolint "+[]string{"DS102", "destructive", ""}[t.Draw("nolint-form", 3)]) + "\n" + text
+						form := []string{"DS102", "destructive", ""}[t.Draw("nolint-form", 3)]
+						// (Under a file-level directive that names a code, a bare statement-level directive is
+						// not honoured by the unchanged tree — the two rule lists are merged and "everything" is
+						// recognised only when it stands alone. Acknowledged drops are not C18's subject: the
+						// combination is left out, see DESIGN §11.4.)
+						if form == "" && fileNolint != "" {
+							form = "DS102"
+						}
+						text = strings.TrimSpace("-- atlas:nolint "+form) + "\n" + text
 					}
 					s, e := emit(text)
 					pre := len(lf.events[tb.Name]) == 0 || strings.HasPrefix(lf.events[tb.Name][0], "pre:")
@@ -666,6 +683,20 @@ func C18(r *simkit.Run) {
 			}
 			if body.Len() == headerLen {
 				continue
+			}
+			if fileNolint != "" {
+				var keep []lintExpect
+				for _, e := range lf.expect {
+					if e.code == fileNolint {
+						lf.nolint = append(lf.nolint, [2]int{e.start, e.end})
+						continue
+					}
+					keep = append(keep, e)
+				}
+				if len(keep) > 0 {
+					r.Probe("file-level-nolint-leaves-a-destructive-change")
+				}
+				lf.expect = keep
 			}
 			lf.name = fmt.Sprintf("%s_h%d.sql", version, f)
 			w.WriteFile(lf.name, body.String())
